@@ -5,6 +5,7 @@ PROPS = {
         'level': 'proof',
         'units': [
             {'engine': 'verus', 'name': 'count_window', 'tier': 'quick', 'role': 'CountWindowManager::process contract + whole-history lemma'},
+            {'engine': 'verus', 'name': 'window_operator', 'tier': 'quick', 'role': 'WindowOperator::next: a data element goes to the manager of its key only (created from init on first use), its results are queued with that key; a control element goes to every manager and is queued AFTER all their results; recycled managers are dropped; the queue is served in order'},
         ],
         'explanation': 'Verus proof, unbounded in N, S, history length and number of open slots, of the per-call contract of '
                        'CountWindowManager::process extracted from /repo, plus the induction lemma_history turning the per-call '
@@ -93,6 +94,7 @@ PROPS = {
             {'engine': 'verus', 'name': 'count_window', 'tier': 'quick', 'role': 'count windows: slots cleared at FlushAndRestart/Terminate'},
             {'engine': 'verus', 'name': 'channel_source', 'tier': 'quick', 'role': 'ChannelSource::next: one FlushAndRestart when the channel closes, then Terminate forever'},
             {'engine': 'verus', 'name': 'collect_vec', 'tier': 'quick', 'role': 'CollectVecSink::next publishes its result exactly when Terminate arrives (once, complete), nothing before'},
+            {'engine': 'verus', 'name': 'window_operator', 'tier': 'quick', 'role': 'WindowOperator::next: a data element goes to the manager of its key only (created from init on first use), its results are queued with that key; a control element goes to every manager and is queued AFTER all their results; recycled managers are dropped; the queue is served in order'},
         ],
         'explanation': 'Verus proof of the per-call contract of Start::next (any number of upstream replicas, any batches): FlushAndRestart is returned exactly when every '
                        'upstream FlushAndRestart of the iteration was consumed (and the per-iteration state restarts), Terminate exactly when every upstream Terminate was consumed, '
@@ -132,6 +134,7 @@ PROPS = {
             {'engine': 'verus', 'name': 'fold', 'tier': 'quick', 'role': 'Fold::next: watermark held back until the result (stamped with the max timestamp) is out'},
             {'engine': 'verus', 'name': 'frontier_v', 'tier': 'quick', 'role': 'WatermarkFrontier::{update,compute_frontier,reset}: front = min of entries or None, returns the new frontier iff it changed, announced values strictly increase (any number of replicas; IndexMap modelled)'},
             {'engine': 'kani', 'name': 'frontier', 'tier': 'thorough', 'bounded': True, 'role': 'same contract on the REAL IndexMap + fxhash, 2 upstream replicas; opt_join complete'},
+            {'engine': 'verus', 'name': 'window_operator', 'tier': 'quick', 'role': 'WindowOperator::next: a data element goes to the manager of its key only (created from init on first use), its results are queued with that key; a control element goes to every manager and is queued AFTER all their results; recycled managers are dropped; the queue is served in order'},
         ],
         'explanation': 'per-operator watermark contracts proved on the real next() functions (Verus, unbounded) plus the frontier / event-time window contracts (Kani single-call harnesses, bounded state size).',
         'assumptions': ['W_in: the operator input respects the watermark contract', 'Fold/KeyedFold/FlatMap/AddTimestamp/WindowOperator wiring: see unit list'],
@@ -141,6 +144,7 @@ PROPS = {
         'units': [
             {'engine': 'verus', 'name': 'event_time_v', 'tier': 'quick', 'role': 'EventTimeWindowManager::{alloc_windows,process}: assignment to exactly the covering windows, firing rule, nothing carried over'},
             {'engine': 'kani', 'name': 'transaction_window', 'tier': 'quick', 'exclude_obligations': ['transaction.iteration_end_carries_nothing_over'], 'role': 'TransactionWindowManager::process: commits exactly as the user logic dictates (loop-free harness: complete)'},
+            {'engine': 'verus', 'name': 'window_operator', 'tier': 'quick', 'role': 'WindowOperator::next: a data element goes to the manager of its key only (created from init on first use), its results are queued with that key; a control element goes to every manager and is queued AFTER all their results; recycled managers are dropped; the queue is served in order'},
         ],
         'explanation': 'Verus proof (any number of open windows, any size/slide, |t| <= 2^60) on the extracted alloc_windows/process: a non-late element is added to exactly the windows whose '
                        'interval contains it (at least one when it is not before the first open window, at most ceil(size/slide)), a watermark fires exactly the windows it passed, oldest first, '
@@ -162,6 +166,7 @@ PROPS = {
         'units': [
             {'engine': 'verus', 'name': 'session_v', 'tier': 'quick', 'role': 'SessionWindowManager::process: every item in exactly one session, sessions emitted whole and once, flushed at iteration end'},
             {'engine': 'verus', 'name': 'processing_time_v', 'tier': 'quick', 'role': 'ProcessingTimeWindowManager::process: item in every window covering now (>=1, <= ceil(size/slide)), closed windows emitted once in order, all flushed at iteration end'},
+            {'engine': 'verus', 'name': 'window_operator', 'tier': 'quick', 'role': 'WindowOperator::next: a data element goes to the manager of its key only (created from init on first use), its results are queued with that key; a control element goes to every manager and is queued AFTER all their results; recycled managers are dropped; the queue is served in order'},
         ],
         'explanation': 'Verus proofs on the extracted process functions with the clock modelled as an arbitrary value (every timing explored): conservation of elements for session and '
                        'processing-time windows, unbounded in the number of open windows.',
